@@ -1,4 +1,5 @@
 import os, re, sys, itertools
+import vf
 from vf import Check, Stream, REPO
 sys.path.insert(0, os.path.join(os.path.dirname(os.path.abspath(__file__)), '..', 'gen'))
 import tables
@@ -278,7 +279,7 @@ class C02(Check):
                   'differently stored String objects: heap, default-constructed, attached slices). x = x: model and code carry '
                   'the self-assignment guard (fixes/C02/01); self-assignment histories are generated when the tree carries the '
                   'guard or with VERIF_C02_SELF_ASSIGN=1. Value type int / default-constructed 77 for PoolMap; element '
-                  'construction/destruction counts belong to C04. After 600 crashes of the implementation in one run the remaining '
+                  'construction/destruction counts belong to C04. After 400 crashes of the implementation in one run the remaining '
                   'cases are not run.')
     rule = ('case = history of up to ~70 operations over 1-3 container variables of one kind (HashMap<K,int>, HashSet<K>, '
             'PoolMap<K,Val>), K in {int32,int64,uint32,const void*,String}, capacities from {0,1,2,3,7,64,500} (independently per '
@@ -371,16 +372,20 @@ class C02(Check):
     def run_impl(self, cases, tag='impl'):
         # chunks of 350 cases: a broken tree may crash on most cases, and the shared runner gives up after 400
         # restarts per call - with chunks every crash still ends in a VIOLATION with a concrete failing input.
-        # Every crash restarts the harness (slow): after 600 crashes over the whole run the remaining cases are
+        # Every crash restarts the harness (slow): after 400 crashes over the whole run the remaining cases are
         # not run (marked `! notrun`, which the framework drops from the stream) - the failing inputs are there by then.
         res, crashes = [], {}
         shrinking = tag.startswith('shr_')
         for off in range(0, len(cases), 350):
             chunk = cases[off:off + 350]
-            if not shrinking and self.crash_total > 600:
+            if not shrinking and self.crash_total > 400:
                 res += [['! notrun'] for _ in chunk]
                 continue
-            r, c = Check.run_impl(self, chunk, tag=tag)
+            # symbolize=0: a sanitizer report is classified by its headline; symbolizing the stack costs ~1 s per crash
+            r, c = vf.run_exe_on_cases(self.exes['impl'], chunk, os.path.join(vf.BUILD, self.id, 'run'), tag, is_impl=True,
+                                       per_case_timeout=self.per_case_timeout,
+                                       env={'ASAN_OPTIONS': 'detect_leaks=0:abort_on_error=0:allocator_may_return_null=1:'
+                                                            'max_allocation_size_mb=2048:symbolize=0'})
             res += r
             for k, v in c.items():
                 crashes[off + k] = v
